@@ -40,7 +40,21 @@ def main():
     if not names:
         names = sorted(d for d in os.listdir(root) if os.path.exists(os.path.join(root, d, "patch.diff")))
     results = []
+    jobs = int(os.environ.get("SELFTEST_JOBS", "1"))
+    if jobs > 1:
+        import concurrent.futures as cf
+        with cf.ThreadPoolExecutor(max_workers=jobs) as ex:
+            for part in ex.map(lambda n: run_one(root, n, tier, suite), names):
+                results += part
+        names = []
     for name in names:
+        results += run_one(root, name, tier, suite)
+    return finish(results)
+
+
+def run_one(root, name, tier, suite):
+    results = []
+    for name in [name]:
         d = os.path.join(root, name)
         meta = json.load(open(os.path.join(d, "meta.json")))
         wt = tempfile.mkdtemp(prefix="vseed-", dir="/tmp")
@@ -80,6 +94,10 @@ def main():
         finally:
             sh(["git", "-C", "/repo", "worktree", "remove", "--force", wt])
             shutil.rmtree(wt, ignore_errors=True)
+    return results
+
+
+def finish(results):
     sh(["git", "-C", "/repo", "worktree", "prune"])
     if os.environ.get("SELFTEST_JSON"):
         with open(os.environ["SELFTEST_JSON"], "w") as f:
